@@ -356,6 +356,211 @@ def defAndCall (s : Sig) (c : CallExpr) : Except Err Frame :=
         | .error e => .error e
         | .ok (args, kwargs) => functionCall s.code fn args kwargs
 
+
+/-! ## Round 3: the whole frame – `co.Varnames` as the compiler lays it out, cells, generator flag -/
+
+/-- The body of the callee as far as frame layout is concerned (symtable's scope analysis is NOT
+modelled: the descriptor says which scope each name got; the generator emits source that matches). -/
+structure Body where
+  /-- names `NameOp` compiles with `OP_FAST` (scope local of a function block), in compile order,
+  repeats and parameters included -/
+  fastUses : List Name
+  /-- symbols of scope cell (parameters captured by an inner function included), any order -/
+  cells : List Name
+  /-- symbols of scope free, any order -/
+  frees : List Name
+  /-- `yield` occurs: `CO_GENERATOR` -/
+  generator : Bool
+  deriving Repr, DecidableEq
+
+/-- `c.Index(name, &names)`: the name keeps its position, a new one is appended -/
+def indexAppend (l : List Name) (n : Name) : List Name := if l.contains n then l else l ++ [n]
+
+/-- `symtable.addArgumentsToSymbolTable`: `st.Varnames` = positional, keyword-only, `*name`, `**name` -/
+def Sig.paramVarnames (s : Sig) : List Name :=
+  s.pos.map (·.name) ++ s.kwonly.map (·.name) ++ s.star.toList ++ s.dstar.toList
+
+/-- `code.Varnames = SymTable.Varnames…` then every `OP_FAST` name through `c.Index` in compile order -/
+def layoutVarnames (s : Sig) (b : Body) : List Name := b.fastUses.foldl indexAppend s.paramVarnames
+
+/-- `sort.Strings` of the symbol-map keys (a map: no repeats) -/
+def sortNames (l : List Name) : List Name :=
+  l.foldl (fun acc n => if acc.contains n then acc else
+    let (lo, hi) := acc.span (fun p => p < n); lo ++ [n] ++ hi) []
+
+/-- `py.CO_CELL_NOT_AN_ARG` -/
+def cellNotAnArg : Nat := 255
+
+/-- `Code.InitCell2arg`: for every cell variable the index of the ARGUMENT of the same name
+(`for j := 0; j < total_args(+1)(+1); j++ { if cell == co.Varnames[j] … byte(j)`), `nil` when no cell is
+an argument -/
+def initCell2arg (co : Code) (cellvars : List Name) : Option (List Nat) :=
+  if cellvars.length = 0 then none else
+  let nargs := co.argcount + co.kwonlyargcount + (if co.varargs then 1 else 0) + (if co.varkeywords then 1 else 0)
+  let m := cellvars.map fun c =>
+    let j := (co.varnames.take nargs).idxOf c
+    if j < nargs ∧ j < co.varnames.length then j % 256 else cellNotAnArg
+  if m.all (· == cellNotAnArg) then none else some m
+
+/-- the fields of `py.Code` `NewFrame` + `EvalCode` + `FastToLocals` read -/
+structure FullCode where
+  co : Code
+  nlocals : Nat
+  cellvars : List Name
+  freevars : List Name
+  cell2arg : Option (List Nat)
+  generator : Bool
+  deriving Repr
+
+/-- the code object the compiler builds for `def f(s): body` -/
+def Sig.fullCode (s : Sig) (b : Body) : FullCode :=
+  let co : Code := { argcount := s.pos.length, kwonlyargcount := s.kwonly.length,
+                     varargs := s.star.isSome, varkeywords := s.dstar.isSome,
+                     varnames := layoutVarnames s b }
+  let cv := sortNames b.cells
+  { co := co, nlocals := co.varnames.length, cellvars := cv, freevars := sortNames b.frees,
+    cell2arg := initCell2arg co cv, generator := b.generator }
+
+/-- a Python object as far as the frame is concerned -/
+inductive Obj
+  | val (v : Val)
+  | tuple (l : List Val)
+  | dict (d : Dict)
+  deriving Repr, DecidableEq
+
+/-- one element of `f.Localsplus`: a plain slot (Go `nil` = `local none`) or a `*py.Cell` -/
+inductive Slot
+  | local (o : Option Obj)
+  | cell (o : Option Obj)
+  deriving Repr, DecidableEq
+
+/-- what `EvalCode` hands to `RunFrame` / `NewGenerator` -/
+structure Entry where
+  localsplus : List Slot
+  generator : Bool
+  deriving Repr, DecidableEq
+
+/-- one iteration of `for i := 0; i < len(co.Cellvars); i++`: a cell that is an argument takes the
+argument's value and the local copy is cleared -/
+def cellStep (fc : FullCode) (lp : List Slot) (i : Nat) : Except Err (List Slot) :=
+  let a := match fc.cell2arg with | some m => m.getD i cellNotAnArg | none => cellNotAnArg
+  if fc.cell2arg.isSome ∧ a ≠ cellNotAnArg then
+    match lp[a]? with
+    | some (.local o) =>
+      if fc.nlocals + i < lp.length then .ok ((lp.set a (.local none)).set (fc.nlocals + i) (.cell o))
+      else .error .unmodelled
+    | _ => .error .unmodelled           -- index out of range: never compiled
+  else if fc.nlocals + i < lp.length then .ok (lp.set (fc.nlocals + i) (.cell none))
+  else .error .unmodelled
+
+/-- `EvalCode` from `NewFrame` to the point where the frame is run (or wrapped in a generator):
+argument parsing (`evalCodeBind`), the slots of `*args`/`**kwargs`, every other local `nil`, the cell
+loop, the free variables copied from the closure (`closure[i]` = content of the i-th closure cell) -/
+def evalCodeEntry (fc : FullCode) (args : List Val) (kws : Dict) (defs : List Val) (kwdefs : Option Dict)
+    (closure : List (Option Obj)) : Except Err Entry :=
+  let total := fc.co.argcount + fc.co.kwonlyargcount
+  let nflag := (if fc.co.varargs then 1 else 0) + (if fc.co.varkeywords then 1 else 0)
+  if fc.nlocals < total + nflag ∨ closure.length < fc.freevars.length then .error .unmodelled else
+  match evalCodeBind fc.co args kws defs kwdefs with
+  | .error e => .error e
+  | .ok f =>
+    let lp0 : List Slot :=
+      f.fast.map (fun o => Slot.local (o.map Obj.val))
+      ++ (match f.vararg with | some l => [Slot.local (some (.tuple l))] | none => [])
+      ++ (match f.kwdict with | some d => [Slot.local (some (.dict d))] | none => [])
+      ++ List.replicate (fc.nlocals - total - nflag) (Slot.local none)
+      ++ List.replicate (fc.cellvars.length + fc.freevars.length) (Slot.local none)
+    match (List.range fc.cellvars.length).foldlM (cellStep fc) lp0 with
+    | .error e => .error e
+    | .ok lp1 =>
+      let lp2 := (List.range fc.freevars.length).foldl
+        (fun lp i => lp.set (fc.nlocals + fc.cellvars.length + i) (.cell ((closure.getD i none)))) lp1
+      .ok { localsplus := lp2, generator := fc.generator }
+
+/-- the `locals()` dictionary: name ↦ object -/
+abbrev LDict := List (Name × Obj)
+
+def ldictSet (d : LDict) (k : Name) (v : Obj) : LDict :=
+  if d.any (fun p => p.1 == k) then d.map (fun p => if p.1 == k then (k, v) else p) else d ++ [(k, v)]
+
+def ldictDel (d : LDict) (k : Name) : LDict := d.filter (fun p => p.1 != k)
+
+/-- `map_to_dict(mapping, nmap, dict, values, deref)`: `for j := nmap - 1; j >= 0; j--` -/
+def mapToDict (mapping : List Name) (nmap : Nat) (d : LDict) (values : List Slot) (deref : Bool) : Except Err LDict :=
+  (List.range nmap).reverse.foldlM (fun d j =>
+    match mapping[j]?, values[j]? with
+    | some key, some sl =>
+      let value : Except Err (Option Obj) :=
+        match sl, deref with
+        | .local o, false => .ok o
+        | .cell o, true => .ok o
+        | .local none, true => .ok none
+        | .local (some _), true => .error .unmodelled   -- panic "map_to_dict: expecting Cell"
+        | .cell _, false => .error .unmodelled          -- a cell object would be shown as a local: never laid out
+      match value with
+      | .error e => .error e
+      | .ok none => .ok (ldictDel d key)
+      | .ok (some v) => .ok (ldictSet d key v)
+    | _, _ => .error .unmodelled) d
+
+/-- `Frame.FastToLocals` into the fresh dict `Function.M__call__` passes (function code is `CO_OPTIMIZED`) -/
+def fastToLocals (fc : FullCode) (lp : List Slot) : Except Err LDict :=
+  let j := if fc.co.varnames.length > fc.nlocals then fc.nlocals else fc.co.varnames.length
+  match (if fc.nlocals ≠ 0 then mapToDict fc.co.varnames j [] lp false else .ok []) with
+  | .error e => .error e
+  | .ok d1 =>
+    if fc.cellvars.length ≠ 0 ∨ fc.freevars.length ≠ 0 then
+      match mapToDict fc.cellvars fc.cellvars.length d1 (lp.drop fc.nlocals) true with
+      | .error e => .error e
+      | .ok d2 => mapToDict fc.freevars fc.freevars.length d2 (lp.drop (fc.nlocals + fc.cellvars.length)) true
+    else .ok d1
+
+/-- `Function.M__call__` on the whole code object -/
+def functionEntry (fc : FullCode) (fn : Func) (closure : List (Option Obj)) (args : List Val) (kwargs : Option Dict) :
+    Except Err Entry :=
+  evalCodeEntry fc args (kwargs.getD []) fn.defaults fn.kwdefaults closure
+
+/-- `BoundMethod.M__call__` on a Python function: `newArgs = (self,) + args; Call(bm.Method, newArgs, kwargs)` -/
+def boundFunctionEntry (fc : FullCode) (fn : Func) (closure : List (Option Obj)) (self : Val) (args : List Val)
+    (kwargs : Option Dict) : Except Err Entry :=
+  functionEntry fc fn closure (self :: args) kwargs
+
+/-- how the Python function is reached -/
+inductive Reach
+  | direct               -- `f(…)`: Vm.Call → Function.M__call__
+  | bound (self : Val)   -- `o.m(…)`: Vm.Call → BoundMethod.M__call__ → Function.M__call__
+  | pyCall               -- `py.Call(f, args, kwargs)` from Go: no call site, no Vm.Call
+  deriving Repr, DecidableEq
+
+/-- end to end for a callee with a body: def → MAKE_FUNCTION/MAKE_CLOSURE → call site → Vm.Call →
+(BoundMethod.M__call__ →) Function.M__call__ → EvalCode up to the ready frame.  `s` is the signature as
+written (for a method it includes `self`). -/
+def defAndEnter (s : Sig) (b : Body) (closure : List (Option Obj)) (r : Reach) (c : CallExpr) : Except Err Entry :=
+  if compileFuncTooMany s || callHelperTooMany 0 c.args.length c.kws.length then .error .syntax else
+  let clo := !b.frees.isEmpty
+  match makeFunction (compileFuncArgc s []) clo (compileFuncPush s [] clo) with
+  | none => .error .unmodelled
+  | some (fn, _) =>
+    let fc := s.fullCode b
+    match r with
+    | .pyCall =>
+      -- the harness builds the tuple and the dict itself: star/dstar are not used on this route
+      functionEntry fc fn closure c.args (if c.kws.isEmpty then none else some c.kws)
+    | _ =>
+      let stack := [Item.val 0] ++ callHelperPush c.args c.kws
+      match vmCallSlice (callHelperArgc 0 c.args.length c.kws.length) stack with
+      | none => .error .unmodelled
+      | some sl =>
+        match itemsToVals sl.args with
+        | none => .error .unmodelled
+        | some args =>
+          match vmCallArgs args sl.kwargsTuple c.star c.dstar with
+          | .error e => .error e
+          | .ok (args, kwargs) =>
+            match r with
+            | .bound self => boundFunctionEntry fc fn closure self args kwargs
+            | _ => functionEntry fc fn closure args kwargs
+
 /-! ## Go callables (py/method.go, py/boundmethod.go) -/
 
 /-- the four Go function types `NewMethod` accepts -/
